@@ -21,7 +21,8 @@
  *     3 TCP listener in slot 2k   4 socketpair with 4 KiB SO_SNDBUF
  *   slots <0: bad descriptors  -1:-1  -2:max_fd  -3:max_fd+7  -4:INT_MAX
  *     -5: a descriptor closed during setup  -6: max_fd-1 (never opened)
- *   slot 100+t: the descriptor thread t last obtained from ACCEPT/CONNECT.
+ *   slot 100+t: the descriptor thread t last obtained from ACCEPT/CONNECT/CLOSE_RACE.
+ *   slot 200+t: the peer of the socketpair created during thread t's CLOSE_RACE.
  */
 #ifndef _GNU_SOURCE
 #define _GNU_SOURCE
@@ -121,7 +122,7 @@ extern void h_rec_set_hook(h_rec_hook_t h);
 
 enum { O_READ = 1, O_WRITE, O_RECV, O_SEND, O_READV, O_WRITEV, O_RECVFROM, O_SENDTO, O_RECVMSG,
        O_SENDMSG, O_READ_ALL, O_WRITE_ALL, O_FCNTL_NB, O_FIONBIO, O_CLOSE, O_ACCEPT, O_CONNECT,
-       O_SLEEP, O_BARRIER, O_SHUTWR, O_SETFL, O_GETFL, O_IDIOM };
+       O_SLEEP, O_BARRIER, O_SHUTWR, O_SETFL, O_GETFL, O_IDIOM, O_CLOSE_RACE };
 
 #define MAXT 12
 #define MAXOPS 48
@@ -154,7 +155,8 @@ typedef struct {
 static shared_t* S;
 static int impl_mode;
 static long max_fd;
-static int fds[NSLOT], dynfd[MAXT + 2], closed_fd = -1;
+static int fds[NSLOT], dynfd[MAXT + 2], dynfd2[MAXT + 2], closed_fd = -1;
+static volatile int race_arm[MAXT + 1];
 static struct sockaddr_in laddr[MAXOBJ];
 
 /* the calls under test: the shims (impl) or libc (ref) */
@@ -214,12 +216,14 @@ static int eclass(long ret, int en) {
   return 3;
 }
 
+static void race_create(int tid);
 /* real-call hook (impl only): kind 2 = real call, kind 3 = epoll_ctl of the event layer */
 static void rec_hook(int code, int fd, long ret, int err, long extra) {
   int t = cur_tid();
   if (t < 0 || !inshim[t]) return;
   if (code == C_EPOLL_CTL) logev(t, 3, fd, extra >> 32, extra & 0xffffffffL);
   else logev(t, 2, code, ret < 0 ? -1 : ret, eclass(ret, err) * 1000 + (ret < 0 ? err : 0));
+  if (code == C_CLOSE && ret == 0 && race_arm[t]) race_create(t);
 }
 
 /* a fiber may resume on another kernel thread inside a shim; glibc declares __errno_location()
@@ -231,6 +235,20 @@ static __attribute__((noinline)) void set_errno(int e) { errno = e; }
 #define END(r) do { int e_ = get_errno(); if (impl_mode) { inshim[tid] = 0; logev(tid, 4, (r) < 0 ? -1 : (long)(r), eclass((r), e_), e_); } set_errno(e_); } while (0)
 
 #define NEWFD(fd) do { if (impl_mode && (fd) >= 0) logev(tid, 5, (fd), 0, 0); } while (0)
+
+/* CLOSE_RACE: what another kernel thread does the moment close(2) has released the descriptor number: it creates
+ * a socketpair (through the calls under test), which normally receives the number just released.  Over the shims this
+ * runs from the real-call hook, i.e. exactly when the real close returns inside the close() shim; in the reference
+ * run right after close().  The new descriptors must be ordinary blocking-mode descriptors afterwards. */
+static void race_create(int tid) {
+  int sv[2] = {-1, -1};
+  int was = inshim[tid], e = get_errno();
+  race_arm[tid] = 0;
+  inshim[tid] = 0;
+  if (io.socketpair(AF_UNIX, SOCK_STREAM, 0, sv) == 0) { dynfd[tid] = sv[0]; dynfd2[tid] = sv[1]; }
+  inshim[tid] = was;
+  set_errno(e);
+}
 
 /* ---- time -------------------------------------------------------------- */
 static long now_ms(void) { struct timespec ts; clock_gettime(CLOCK_MONOTONIC, &ts); return ts.tv_sec * 1000L + ts.tv_nsec / 1000000; }
@@ -247,11 +265,12 @@ static int slot_fd(int tid, int slot) {
     case -5: return closed_fd;
     case -6: return (int)max_fd - 1;
   }
+  if (slot >= 2 * DYN && slot <= 2 * DYN + MAXT) return dynfd2[slot - 2 * DYN];
   if (slot >= DYN && slot <= DYN + MAXT) return dynfd[slot - DYN];
   if (slot >= 0 && slot < NSLOT) return fds[slot];
   return -1;
 }
-static int slot_ix(int slot) { return slot >= DYN ? NSLOT + (slot - DYN) : (slot >= 0 && slot < NSLOT ? slot : NSLOT + MAXT + 1); }
+static int slot_ix(int slot) { return slot >= 2 * DYN ? NSLOT + MAXT + 1 : slot >= DYN ? NSLOT + (slot - DYN) : (slot >= 0 && slot < NSLOT ? slot : NSLOT + MAXT + 1); }
 
 /* byte k that thread t sends on a slot */
 static inline unsigned char pat(int tid, int slot, long k) { return (unsigned char)((k * 131 + (k >> 8) * 7 + tid * 29 + slot * 17 + 1) & 0xff); }
@@ -367,6 +386,11 @@ static void run_ops(int tid) {
       case O_CLOSE:
         BEGIN(C_CLOSE, fd, 0); r = io.close(fd); END(r);
         break;
+      case O_CLOSE_RACE:
+        race_arm[tid] = 1;
+        BEGIN(C_CLOSE, fd, 0); r = io.close(fd); END(r);
+        if (race_arm[tid]) { int e = get_errno(); race_create(tid); set_errno(e); }
+        break;
       case O_SHUTWR: r = shutdown(fd, SHUT_WR); break;
       case O_ACCEPT: {
         BEGIN(C_ACCEPT, fd, 0); r = io.accept(fd, NULL, NULL); END(r);
@@ -452,7 +476,7 @@ static int setup(void) {
 static void child(void) {
   struct rlimit rl; getrlimit(RLIMIT_NOFILE, &rl); max_fd = (long)rl.rlim_max;
   signal(SIGPIPE, SIG_IGN);
-  for (int t = 0; t <= S->nthr; t++) { bufs[t] = malloc(BUFSZ); dynfd[t] = -1; }
+  for (int t = 0; t <= S->nthr; t++) { bufs[t] = malloc(BUFSZ); dynfd[t] = -1; dynfd2[t] = -1; }
   io_bind();
   if (impl_mode) {
     fiber_manager_init(S->nkt);
